@@ -46,7 +46,9 @@ PortTypeModel ==
   IN [decls |-> itfs \o dk \o <<comp>>, cfg |-> Cfg(cs \o <<"M">>, AllSts, AllSts, NoMc)]
 
 FormalTypeModel ==
-  LET exts == [i \in 1..Cardinality(where) |-> [D("extern", OrderedScopes(where)[i] \o <<"T">>) EXCEPT !.cpp = CppTag(OrderedScopes(where)[i])]]
+  LET \* "nested": an extern declared as a local type of the referring interface itself (Dezyne: type ::= enum | int | extern)
+      hs   == OrderedScopes(where \ {<<"nested">>}) \o (IF <<"nested">> \in where THEN <<cs \o <<"I">> >> ELSE <<>>)
+      exts == [i \in 1..Len(hs) |-> [D("extern", hs[i] \o <<"T">>) EXCEPT !.cpp = CppTag(hs[i])]]
       dk   == IF decoy = <<"none">> THEN <<>> ELSE <<[D("enum", decoy \o <<"T">>) EXCEPT !.fields = <<"Ok">>]>>
       itf  == [D("interface", cs \o <<"I">>) EXCEPT !.events =
                  <<Ev("Go", "in", <<"void">>, <<Fm("a", sp, "in")>>), Ev("Sig", "out", <<"void">>, <<Fm("b", sp, "in")>>)>>]
@@ -157,7 +159,7 @@ Init ==
        /\ cs = <<>> /\ where = {} /\ decoy = <<"none">> /\ sp = <<>>
   ELSE /\ base = NoBase /\ fault = "none"
        /\ cs \in {<<>>, <<"A">>, <<"A", "B">>, <<"AB">>}
-       /\ where \in (SUBSET (Scopes \cup (IF Mode = "claim-enum" THEN {<<"nested">>} ELSE {}))) \ {{}}
+       /\ where \in (SUBSET (Scopes \cup (IF Mode \in {"claim-enum", "formal-type"} THEN {<<"nested">>} ELSE {}))) \ {{}}
        /\ decoy \in {<<>>, <<"A">>, <<"A", "B">>, <<"none">>}
        /\ sp \in Spellings(CASE Mode = "port-type" -> "I" [] Mode = "formal-type" -> "T" [] OTHER -> "E")
 Next == FALSE
